@@ -561,6 +561,39 @@ void run_intrusive_owned(Ctx &c) {
 	c.tag("owned-intrusive-list");
 }
 
+// ---- element types whose value-initialised state is not all-zero bytes ------------------------
+// A null pointer to data member is represented as -1 (Itanium ABI): "value-initialise = zero-fill" is wrong for it.
+struct Regs { int ax, bx, cx; };
+void run_memptr(Ctx &c) {
+	auto &t = c.t;
+	using E = int Regs::*;
+	static const E vals[4] = {nullptr, &Regs::ax, &Regs::bx, &Regs::cx};
+	c.op("vector / small_vector / dyn_array of pointers to data members");
+	frg::vector<E, track_alloc> *v = c.make<frg::vector<E, track_alloc>>(track_alloc{});
+	frg::small_vector<E, 4, track_alloc> *sv = c.make<frg::small_vector<E, 4, track_alloc>>(track_alloc{});
+	std::vector<E> rv, rsv;
+	unsigned nops = 2 + t.pick(20);
+	auto same = [&](const char *what) {
+		VCHECK(c, "C13", v->size() == rv.size() && sv->size() == rsv.size(), "%s: sizes %zu/%zu, reference %zu/%zu", what, v->size(), sv->size(), rv.size(), rsv.size());
+		for(size_t i = 0; i < rv.size(); i++) VCHECK(c, "C13", (*v)[i] == rv[i], "%s: vector<int Regs::*>[%zu] %s, the reference %s", what, i, (*v)[i] == nullptr ? "is null" : "points to a member", rv[i] == nullptr ? "is null" : "points to a member");
+		for(size_t i = 0; i < rsv.size(); i++) VCHECK(c, "C13", (*sv)[i] == rsv[i], "%s: small_vector<int Regs::*>[%zu] %s, the reference %s", what, i, (*sv)[i] == nullptr ? "is null" : "points to a member", rsv[i] == nullptr ? "is null" : "points to a member");
+	};
+	for(unsigned i = 0; i < nops; i++) {
+		switch(t.pick(4)) {
+		case 0: { E e = vals[t.pick(4)]; c.op("push"); v->push(e); rv.push_back(e); sv->push_back(e); rsv.push_back(e); break; }
+		case 1: { size_t n = t.pick(24); c.op("resize(%zu) (value-initialised new elements)", n); if(n > rv.size()) c.tag("memptr-resize-grow"); v->resize(n); rv.resize(n); sv->resize(n); rsv.resize(n); break; }
+		case 2: { size_t n = t.pick(24); E e = vals[t.pick(4)]; c.op("resize(%zu, value)", n); v->resize(n, e); rv.resize(n, e); sv->resize(n, e); rsv.resize(n, e); break; }
+		default: if(!rv.empty()) { c.op("pop"); v->pop(); rv.pop_back(); sv->pop_back(); rsv.pop_back(); } break;
+		}
+		same("the operation");
+	}
+	{ size_t n = 1 + t.pick(9); frg::dyn_array<E, track_alloc> *d = c.make<frg::dyn_array<E, track_alloc>>(n, track_alloc{});
+	  for(size_t i = 0; i < n; i++) VCHECK(c, "C13", (*d)[i] == nullptr, "dyn_array<int Regs::*>(%zu)[%zu] is not a null member pointer", n, i); c.destroy(d); }
+	c.destroy(sv); c.destroy(v);
+	VTRACK_END(c);
+	c.nontrivial = nops >= 6;
+}
+
 // ---- assignment from a source that the destination owns ----------------------------------
 // node { id, kids }: parent.kids = parent.kids[k].kids (copy and move). The source vector lives in an element of the
 // destination; the model computes the result from a deep copy taken before the call.
@@ -625,7 +658,7 @@ void run_nested(Ctx &c) {
 } // namespace
 
 void verif_case(Ctx &c) {
-	unsigned kind = c.t.pick(25);
+	unsigned kind = c.t.pick(28);
 	c.tagf("kind-%u", kind);
 	switch(kind) {
 	case 18: run_vector<Braced>(c); return;
@@ -652,6 +685,9 @@ void verif_case(Ctx &c) {
 	case 10: run_list<int>(c); break;
 	case 11: run_list<Tracked>(c); break;
 	case 24: run_intrusive_owned(c); return;
+	case 25: run_small_vector<int, 0>(c); return;
+	case 26: run_small_vector<Tracked, 0>(c); return;
+	case 27: run_memptr(c); return;
 	default: if(c.focus() == "C16") { run_list<Tracked>(c); } else run_intrusive(c); break;
 	}
 }
